@@ -5,7 +5,8 @@
 From Coq Require Import List ZArith Bool.
 From LJT Require Import model.T81Spec model.T81Arith gen.GenAricom proofs.T81StuffProofs proofs.T81ParseProofs proofs.T81LenProofs
   proofs.T81BlockProofs proofs.T81ScanProofs proofs.T81HuffProofs proofs.T81WriterProofs proofs.T81WrittenProofs proofs.T81ParseInvProofs proofs.T81Examples
-  proofs.T81ArithProofs proofs.T81QMProofs proofs.T81AricomProofs proofs.T81ArithExamples.
+  proofs.T81ArithProofs proofs.T81QMProofs proofs.T81AricomProofs proofs.T81ArithExamples
+  proofs.T81ArithProofsIdeal proofs.T81ArithProofsBytes.
 Import ListNotations.
 Local Open Scope Z_scope.
 
@@ -155,10 +156,22 @@ Theorem C04_table_D3_is_jaricom :
 Proof. exact aricom_is_table_D3. Qed.
 Print Assumptions C04_table_D3_is_jaricom.
 
-(* not proved (partial): the D.2 decoder inverts the D.1 encoder (interval containment of the
-   flushed code string); exercised by the Examples and by both correspondence directions *)
-Definition C04_qm_roundtrip_full : Prop :=
-  forall ds, qm_decode_list ds (qm_encode_all ds) = map snd ds.
+(* (10) the D.2 decoder inverts the D.1 encoder -- Code_MPS / Code_LPS with conditional exchange,
+   Renorm_e with Byte_out (carry into the last byte B, stacked X'FF' bytes turned into X'00' by a
+   carry, the ST counter), Flush (Clear_final_bits, final Byte_outs, Discard_final_zeros), against
+   Initdec / Decode / Renorm_d / Byte_in with zero fill past the end -- for EVERY list of
+   (statistics bin, decision) pairs and every initial statistics state; the statistics areas of
+   both sides end up identical.  (The X'FF' stuffing of the emitted bytes is C04_stuffing.) *)
+Theorem C04_qm_roundtrip : forall ds,
+  fst (qm_run (map fst ds) (qm_init_dec (qm_encode_all ds))) = map snd ds.
+Proof. exact qm_roundtrip. Qed.
+Print Assumptions C04_qm_roundtrip.
+
+Theorem C04_qm_roundtrip_stats : forall st0 ds, stats_ok st0 ->
+  exists Df, qm_run (map fst ds) (init_dec_st st0 (qm_flush (fold_left qm_encode ds (init_enc_st st0)))) = (map snd ds, Df) /\
+             qst Df = est (fold_left qm_encode ds (init_enc_st st0)).
+Proof. exact qm_roundtrip_st. Qed.
+Print Assumptions C04_qm_roundtrip_stats.
 
 Example C04_example_qm_roundtrip :
   qm_decode_list ex_decisions (qm_encode_all ex_decisions) = map snd ex_decisions /\
